@@ -48,6 +48,8 @@ from __future__ import annotations
 import math
 import os
 
+import numpy as np
+
 from hypothesis import strategies as st
 
 from vlib import refhydro as R
@@ -896,6 +898,18 @@ def check_cut(case, v):
     if not abs(vf - vfirst) <= allowed:
         if min(vf, vfirst) < 0.1:
             cls0 += "/slow"  # the root search works with slow-wall matchings, ~10 % of which are non-solutions (C02 F1a)
+        else:
+            # the same signature above 0.1 (weak transitions): does findMatching return non-solutions of the junction
+            # conditions between the expected and the returned velocity?  (C02's subject, root cause C02-F1a)
+            for vv in np.linspace(min(vf, vfirst), max(vf, vfirst), 5):
+                try:
+                    mres = hyd.findMatching(float(vv))
+                    r1, r2 = R.wall_residuals(eos, *[float(x) for x in mres])
+                    if max(abs(r1), abs(r2)) > 1e3 * max(rtol, 1e-9):
+                        cls0 += "/nonsolution"
+                        break
+                except Exception:  # noqa: BLE001
+                    continue
         v.fail("cut-fastest", cls0,
                f"{first}-T range ends at T({vfirst:.8g}) = {Tfirst:.8g}: fastestDeflag() = {vf:.10g}, expected "
                f"{vfirst:.10g} (difference {vf - vfirst:.3e}, allowed {allowed:.2e}); vMin = {vmin:.6g}, vJ = {vJ2:.8g}",
